@@ -4,9 +4,11 @@
   of `[A | I]`, the value with which `mzd_inv_m4ri` / `mzd_invert_naive` results are compared for every `k`) is proved
   to be the inverse of every invertible `A` — relative to the Gauss facts `RowEquiv`/`isRREF` (discharged in
   M4riProofs/GaussOK.lean when present).
+  In Mathlib's terms (`ML`): `inverseSpec A` and `invertNaive A I` are Mathlib's `(mat A)⁻¹` whenever `det` is a unit.
 -/
 import M4riProofs.Trsm
 import M4riProofs.GaussOK
+import M4riProofs.MathlibSpec
 namespace M4ri.Props.C05
 open M4ri M4ri.BMat
 
@@ -45,5 +47,12 @@ theorem tri_inverse_value {U : BMat} (hU : U.WF) (hsq : U.ncols = U.nrows) (hut 
 #check @M4ri.BMat.triInv_unique_right
 #check @M4ri.BMat.inverseSpec_unitUpper
 #check @M4ri.BMat.invertNaive_identity
+
+#check @M4ri.BMat.ML.mat_triInv
+#check @M4ri.BMat.ML.mat_inverseSpec
+#check @M4ri.BMat.ML.mat_invertNaive
+#check @M4ri.BMat.ML.isUnit_det_iff
+#check @M4ri.BMat.ML.isUnit_det_iff_ne_zero
+#check @M4ri.BMat.ML.mat_triInv_isUpperTriangular
 
 end M4ri.Props.C05
